@@ -284,6 +284,63 @@ Section ToolboxRpa.
 End ToolboxRpa.
 
 (* ------------------------------------------------------------------ agreement of two back ends *)
+(* ------------------------------------------------------------------ the resolver is a pure function *)
+Section Resolver.
+  Variable e : list Z -> list Z -> list Z.
+
+  (* the deterministic content of "does not resolve under an unrelated key": a key whose hash of
+     the address's prand differs from the address's hash part does not match *)
+  Theorem rpa_matches_iff : forall k addr,
+    rpa_matches e k addr = true <-> ah e k (py_slice addr 3 6) = py_slice addr 0 3.
+  Proof. intros. unfold rpa_matches. apply list_eqb_eq. Qed.
+
+  Theorem rpa_unrelated_key_rejected : forall k addr,
+    ah e k (py_slice addr 3 6) <> py_slice addr 0 3 -> rpa_matches e k addr = false.
+  Proof.
+    intros k addr H. destruct (rpa_matches e k addr) eqn:E; [|reflexivity].
+    apply rpa_matches_iff in E. contradiction.
+  Qed.
+
+  Lemma resolve_from_spec : forall irks addr n,
+    match resolve_from e n irks addr with
+    | Some i => (n <= i)%nat /\ rpa_matches e (nth (i - n) irks []) addr = true /\
+                (i - n < length irks)%nat /\
+                forall j, (j < i - n)%nat -> rpa_matches e (nth j irks []) addr = false
+    | None => forall j, (j < length irks)%nat -> rpa_matches e (nth j irks []) addr = false
+    end.
+  Proof.
+    induction irks as [|k irks IH]; intros addr n; cbn [resolve_from].
+    - intros j Hj. simpl in Hj. lia.
+    - destruct (rpa_matches e k addr) eqn:Ek.
+      + replace (n - n)%nat with 0%nat by lia. cbn [nth length]. repeat split; try lia. assumption.
+      + specialize (IH addr (S n)). destruct (resolve_from e (S n) irks addr) as [i|].
+        * destruct IH as (H1 & H2 & H3 & H4).
+          replace (i - n)%nat with (S (i - S n)) by lia. cbn [nth length].
+          repeat split; try lia; try assumption.
+          intros [|j] Hj; [assumption|]. apply H4. lia.
+        * intros [|j] Hj; [assumption|]. cbn [nth]. apply IH. simpl in Hj. lia.
+  Qed.
+
+  (* resolve returns the FIRST key of the list whose hash matches, and None only when none does *)
+  Theorem resolve_first_match : forall irks addr,
+    match resolve e irks addr with
+    | Some i => rpa_matches e (nth i irks []) addr = true /\ (i < length irks)%nat /\
+                forall j, (j < i)%nat -> rpa_matches e (nth j irks []) addr = false
+    | None => forall j, (j < length irks)%nat -> rpa_matches e (nth j irks []) addr = false
+    end.
+  Proof.
+    intros irks addr. unfold resolve. pose proof (resolve_from_spec irks addr 0) as H.
+    destruct (resolve_from e 0 irks addr) as [i|]; [|assumption].
+    rewrite Nat.sub_0_r in H. tauto.
+  Qed.
+
+  (* in any sequence of resolve() calls on one resolver, every result is that of its call alone *)
+  Theorem resolve_history_pure : forall irks addrs i addr,
+    nth_error addrs i = Some addr ->
+    nth_error (resolve_history e irks addrs) i = Some (resolve e irks addr).
+  Proof. intros irks addrs i addr H. unfold resolve_history. rewrite nth_error_map, H. reflexivity. Qed.
+End Resolver.
+
 Section AgreementE.
   Variables e1 e2 : list Z -> list Z -> list Z.
   (* the two back ends agree on AES-128 e for 16-byte keys and blocks; outputs are 16 bytes *)
